@@ -202,7 +202,9 @@ class _TaskGen(object):
         info = self.objs[o]
         op = {'op': 'call', 'o': o, 'x': self.x_for(info['cls'])}
         if info['args'] is not None:
-            op['args'], op['kwds'] = copy.deepcopy(info['args'])
+            nm = info['new']['fun']['name']
+            a = rng.choice(funpool.DEFAULT_ARGS[nm]) if rng.random() < 0.5 else info['args']
+            op['args'], op['kwds'] = copy.deepcopy(a)
         if allow_fault and rng.random() < self.k['p_fault']:
             if rng.random() < self.k['p_abort']:
                 op['fault'] = {'kind': 'abort', 'at': int(2 ** rng.uniform(0, 9.5))}
@@ -304,12 +306,43 @@ class _TaskGen(object):
         self.ops.append(op)
 
     def add_dropgc(self):
-        cands = self.live()
-        if len(cands) < 2:
+        cands = [o for o in self.live()
+                 if not any(x['new']['fun'].get('inner') == o for x in self.objs.values())]
+        if not cands or (len(cands) < 2 and self.rng.random() < 0.5):
             return False
-        o = self.rng.choice(cands)
-        self.objs[o]['live'] = False
+        rng = self.rng
+        o = rng.choice(cands)
+        old = self.objs[o]
+        old['live'] = False
         self.ops.append({'op': 'dropgc', 'o': o})
+        if rng.random() < 0.7:
+            # respawn: a new object of the same class and (method, n, order) with another step
+            # configuration, called where the dead one was called (address reuse after gc)
+            new = copy.deepcopy(old['new'])
+            name = self.name('o')
+            new['o'] = name
+            r = rng.random()
+            if r < 0.4:
+                new['step'] = rng.choice([0.01, 1e-3, 0.1, 0.25])
+                new['opts'] = {}
+            elif r < 0.7:
+                new['step'] = None
+                new['opts'] = _draw_obj_opts(rng)
+            elif self.gens:
+                new['step'] = {'gen': rng.choice(self.gens)[0]}
+                new.pop('opts', None)
+            if rng.random() < 0.5 and new['fun']['name'] in funpool.SS:
+                new['fun'] = {'name': rng.choice(self.k['ss'])}
+            self.ops.append(new)
+            self.objs[name] = {'cls': new['cls'], 'args': old['args'], 'live': True,
+                               'depth': old['depth'], 'new': new}
+            self.changed[name] = {}
+            last = [c for c in self.ops if c['op'] == 'call' and c['o'] == o]
+            call = {'op': 'call', 'o': name,
+                    'x': copy.deepcopy(last[-1]['x']) if last else self.x_for(new['cls'])}
+            if old['args'] is not None:
+                call['args'], call['kwds'] = copy.deepcopy(old['args'])
+            self.ops.append(call)
         return True
 
     # -- the history ------------------------------------------------------------------------
@@ -324,6 +357,8 @@ class _TaskGen(object):
         while len(self.ops) < length and guard < 200:
             guard += 1
             kind = rng.choices(kinds, weights=[w[x] for x in kinds])[0]
+            if not self.live():
+                self.add_new()
             if kind == 'newgen':
                 if len(self.gens) < 2:
                     self.add_newgen()
@@ -351,6 +386,8 @@ class _TaskGen(object):
                 self.add_limit()
             elif kind == 'dropgc':
                 self.add_dropgc()
+        if not self.live():
+            self.add_new()
         if self.ops[-1]['op'] not in ('call', 'ddiff'):
             if rng.random() < 0.5 and any(self.changed[o] for o in self.live()):
                 self.add_restore()
@@ -375,7 +412,7 @@ def _knobs(rng, mode):
     ns = rng.choice([[1, 2], [1, 2, 3, 4], [0, 1, 2], [1, 2, 3, 4, 5, 6], [1, 3], [2, 4], [1]])
     orders = rng.choice([[2, 4], [1, 2, 3, 4], [2, 4, 6, 8], [2], [1, 2, 3, 4, 5, 6, 7, 8], [2, 6]])
     weights = {'newgen': 0.5, 'new': 2.0, 'call': 5.0, 'set': 1.5, 'restore': 1.0, 'cache': 1.0,
-               'ddiff': 0.5, 'rule': 0.5, 'steps': 0.5, 'limit': 0.2, 'dropgc': 0.2}
+               'ddiff': 0.5, 'rule': 0.5, 'steps': 0.5, 'limit': 0.2, 'dropgc': 0.3}
     for key in list(weights):
         u = rng.random()
         if u < 0.25 and key != 'call':
@@ -422,6 +459,7 @@ def generate(run_seed, mode='seq', ntasks=None):
             'mean_gap': rng.choice([5, 50, 500, 5000]),
             'budget': rng.choice([0, 2, 4, 8, 16, 32, 64]),
             'bias': rng.choice([0.0, 0.05, 0.3, 0.8]),
+            'probe': rng.choice([0.0, 0.5, 1.0]),
             'pick': rng.choice(['uniform', 'uniform', 'prio']),
             'prio': [rng.random() for _ in range(nt)],
         }
